@@ -94,6 +94,9 @@ func (r *Result) TopTrace() string {
 		case "h":
 			switch e.F[0] {
 			case "gochannel.publish.sent":
+				if !strings.HasPrefix(e.F[2], "m") {
+					break // a message without a UUID of its own (Scenario.DupUUID): the hook cannot name it
+				}
 				toks = append(toks, "hs,"+strings.TrimPrefix(e.F[1], "t")+","+strings.TrimPrefix(e.F[2], "m"))
 			case "gochannel.subscribe.registered":
 				if sid, ok := uuidToSid[e.F[2]]; ok {
